@@ -118,6 +118,7 @@ BodyOpPlan(d, op) ==
   CASE op.o = "acc"   -> <<[k |-> "Y"], [k |-> "acc", pos |-> op.pos, m |-> op.m]>>
     [] op.o = "panic" -> <<[k |-> "Y"], [k |-> "panic"]>>
     [] op.o = "op"    -> OpPlan(d, op.name, op.c)
+    [] op.o = "probe" -> <<[k |-> "probe"]>>      \* ThreadKey::get() inside the critical section
 
 BodyPlan(d, body) == Flatten([i \in 1..Len(body) |-> BodyOpPlan(d, body[i])])
 
